@@ -382,5 +382,28 @@ func checkWindowOrder(c *Ctx, prop string) {
 			}
 		}
 	}
+	// the same scan written with the library: slices.IndexFunc(window, sameGenerator) is the
+	// first index from 0 upwards; the verdict is then taken for that element
+	for _, b := range blocksDeep(con) {
+		for _, in := range b.Instrs {
+			ia, ok := in.(*ssa.IndexAddr)
+			if !ok {
+				continue
+			}
+			it := T(ia.Index)
+			if it.Op == "call" && strings.HasPrefix(it.Sym, "slices.IndexFunc") && len(it.Args) >= 1 && strings.Contains(it.Args[0].String(), "blockBFTInfos") && strings.Contains(T(ia.X).String(), "blockBFTInfos") {
+				asc = true
+				detail = it.Sym
+				// the verdict returned is the kernel's answer for that element
+				for _, s := range CallsIn(con, "consensus/contradiction.AreDistinctHeadersContradicting") {
+					for _, r := range Returns(con) {
+						if len(r.Results) > 0 && stripConv(r.Results[0]) == s.Call.Value() {
+							firstMatch = true
+						}
+					}
+				}
+			}
+		}
+	}
 	c.Require(prop+".O2 scan-most-recent-first", FuncKey(con), p.Pos(con.Pos()), "the window is scanned from index 0 upwards and the verdict of the first header by the same generator is returned", asc && firstMatch, "index: "+detail)
 }
